@@ -235,6 +235,19 @@ def push (s : St) (h : Hdr) : St := ⟨s.roots, ⟨h, []⟩ :: s.stack, s.seenFa
 def unparsable (o : Opts) (s : St) (line : Str) : StepResult :=
   if o.allowMultiLine && !s.stack.isEmpty then .next (appendTop (LF :: line) s) else .error
 
+/-- where a node line goes: a root record, an over-deep line (clamped or the documented panic),
+    or a line at or above the deepest open level -/
+def place (o : Opts) (s : St) (l : Line) : StepResult :=
+  if l.level = 0 then
+    .next (push (closeTo 0 (trimTop s)) (hdrOf l))
+  else if l.level - 1 ≥ s.stack.length then
+    if o.allowInvalidIndents then
+      if s.stack.isEmpty then .error
+      else .next (push (trimTop s) (hdrOf l))        -- hangs one below the deepest open node
+    else .panic .indentTooLarge
+  else
+    .next (push (closeTo l.level (trimTop s)) (hdrOf l))
+
 /-- one iteration of the `Decode` loop -/
 def step (o : Opts) (s : St) (line : Str) : StepResult :=
   if line = [] then
@@ -244,16 +257,7 @@ def step (o : Opts) (s : St) (line : Str) : StepResult :=
     | none => unparsable o s line
     | some l =>
       if isRoleTag l.tag && !s.seenFam then unparsable o s line else
-      let s := { s with seenFam := s.seenFam || l.tag == tFAM }
-      if l.level = 0 then
-        .next (push (closeTo 0 (trimTop s)) (hdrOf l))
-      else if l.level - 1 ≥ s.stack.length then
-        if o.allowInvalidIndents then
-          if s.stack.isEmpty then .error
-          else .next (push (trimTop s) (hdrOf l))        -- hangs one below the deepest open node
-        else .panic .indentTooLarge
-      else
-        .next (push (closeTo l.level (trimTop s)) (hdrOf l))
+      place o { s with seenFam := s.seenFam || l.tag == tFAM } l
 
 inductive Outcome
   | ok (d : Doc)
@@ -279,6 +283,109 @@ def decode (o : Opts) (s : Str) : Outcome :=
   match run o ⟨[], [], false⟩ 1 (splitLines body) with
   | .inl out => out
   | .inr st => .ok ⟨bom, (closeTo 0 (trimTop st)).roots⟩
+
+/-! ## stack-free reference (C02)
+
+  What the line grammar dictates, written without any stack: one pass over the lines yields the
+  preorder listing `(level, header)` of the document — each node line contributes one entry at
+  its level (with `AllowInvalidIndents`, at most one below the previous entry), unparsable or
+  blank lines extend the previous entry's value (with `AllowMultiLine`), values are trimmed when
+  the entry is complete.  A forest is determined by its preorder listing (`listing_injective`),
+  and in a preorder listing the parent of an entry at level n is the nearest preceding entry at
+  level n-1, which is the property's wording. -/
+
+structure Entry where
+  level : Nat
+  hdr : Hdr
+deriving Repr, Inhabited
+
+mutual
+/-- preorder listing of a tree / forest with depths -/
+def listingT (lvl : Nat) : Node → List Entry
+  | .mk t v p ks => ⟨lvl, ⟨t, v, p⟩⟩ :: listingF (lvl + 1) ks
+def listingF (lvl : Nat) : List Node → List Entry
+  | [] => []
+  | n :: ns => listingT lvl n ++ listingF lvl ns
+end
+
+structure ScanSt where
+  done : List Entry          -- completed entries, in file order
+  last : Option Entry        -- the entry of the previous node line, still open for continuation
+  seenFam : Bool
+deriving Repr, Inhabited
+
+inductive ScanResult
+  | next (s : ScanSt)
+  | error
+  | panic (c : PanicClass)
+deriving Repr
+
+def Entry.trim (e : Entry) : Entry := ⟨e.level, ⟨e.hdr.tag, trimSpace e.hdr.value, e.hdr.ptr⟩⟩
+def Entry.extend (e : Entry) (extra : Str) : Entry := ⟨e.level, ⟨e.hdr.tag, e.hdr.value ++ extra, e.hdr.ptr⟩⟩
+
+def ScanSt.emit (s : ScanSt) (e : Entry) : ScanSt :=
+  match s.last with
+  | none => ⟨s.done, some e, s.seenFam⟩
+  | some l => ⟨s.done ++ [l.trim], some e, s.seenFam⟩
+
+def scanUnparsable (o : Opts) (s : ScanSt) (line : Str) : ScanResult :=
+  match s.last with
+  | some l => if o.allowMultiLine then .next { s with last := some (l.extend (LF :: line)) } else .error
+  | none => .error
+
+def scanPlace (o : Opts) (s : ScanSt) (l : Line) : ScanResult :=
+  if l.level = 0 then .next (s.emit ⟨0, hdrOf l⟩)
+  else match s.last with
+    | none => if o.allowInvalidIndents then .error else .panic .indentTooLarge
+    | some prev =>
+      if l.level > prev.level + 1 then
+        if o.allowInvalidIndents then .next (s.emit ⟨prev.level + 1, hdrOf l⟩)
+        else .panic .indentTooLarge
+      else .next (s.emit ⟨l.level, hdrOf l⟩)
+
+def scanStep (o : Opts) (s : ScanSt) (line : Str) : ScanResult :=
+  if line = [] then
+    match s.last with
+    | some l => .next (if o.allowMultiLine then { s with last := some (l.extend [LF]) } else s)
+    | none => .next s
+  else
+    match parseLine line with
+    | none => scanUnparsable o s line
+    | some l =>
+      if isRoleTag l.tag && !s.seenFam then scanUnparsable o s line else
+      scanPlace o { s with seenFam := s.seenFam || l.tag == tFAM } l
+
+inductive ScanOutcome
+  | ok (bom : Bool) (listing : List Entry)
+  | error (line : Nat)
+  | panic (c : PanicClass)
+deriving Repr
+
+def scanRun (o : Opts) : ScanSt → Nat → List Str → ScanOutcome ⊕ ScanSt
+  | s, _, [] => .inr s
+  | s, n, l :: ls =>
+    match scanStep o s l with
+    | .next s' => scanRun o s' (n + 1) ls
+    | .error => .inl (.error n)
+    | .panic c => .inl (.panic c)
+
+def ScanSt.finish (s : ScanSt) : List Entry :=
+  match s.last with
+  | none => s.done
+  | some l => s.done ++ [l.trim]
+
+/-- the reference: BOM, lines, one pass -/
+def scan (o : Opts) (s : Str) : ScanOutcome :=
+  let (bom, body) := stripBOM s
+  match scanRun o ⟨[], none, false⟩ 1 (splitLines body) with
+  | .inl out => out
+  | .inr st => .ok bom st.finish
+
+/-- the decoder's outcome seen through the preorder listing -/
+def Outcome.listing : Outcome → ScanOutcome
+  | .ok d => .ok d.hasBOM (listingF 0 d.nodes)
+  | .error n => .error n
+  | .panic c => .panic c
 
 /-! ## legality (C01's hypothesis), executable so that the harness can ask the model whether a
    generated forest lies in the theorem's domain -/
